@@ -78,7 +78,10 @@ def try_seed(name, checks):
     if ap.returncode != 0:   # the tree has moved on (fix: commits): 3-way merge against the base blobs
         ap = sh(f"git -C /repo apply --3way {d}/patch.diff")
         meta["applied_with"] = "git apply --3way (fix: commits touched the same file)"
-    assert ap.returncode == 0 and "conflict" not in (ap.stdout + ap.stderr).lower(), ap.stderr
+    if not (ap.returncode == 0 and "conflict" not in (ap.stdout + ap.stderr).lower()):
+        sh("git -C /repo reset -q --hard HEAD")
+        print(f"{name}: patch does not apply to the current tree (needs a manual rebase): {ap.stderr.strip()[:200]}")
+        return
     try:
         for c in checks:
             t0 = time.time()
